@@ -80,7 +80,7 @@ func c06PlanFor(seed, id uint64) c06BodyPlan {
 func init() {
 	core.Register(&core.Property{
 		ID: "C06",
-		Rule: "whole runs of generated scenario programs: setup registers 0-4 cleanups (each ok / panic / FailNow / Fail / panic(err)) and may fail or panic before, between or after them; every body registers 0-5 cleanups before/after its own failure point (19 behaviours) with faults of their own; endings: limit, duration, cancel from outside, cancel from inside iteration j, setup fault, completion-timeout expiry; all trigger modes. " +
+		Rule: "whole runs of generated scenario programs: setup registers 0-4 cleanups (each ok / panic / FailNow / Fail / panic(err)) and may fail or panic before, between or after them; every body registers 0-5 cleanups before/after its own failure point (19 behaviours) with faults of their own; endings: limit, duration, cancel from outside, cancel from inside iteration j, cancel from inside setup (with and without a setup fault), setup fault, completion-timeout expiry; all trigger modes. " +
 			"The event log is checked offline against the lifecycle order. non-trivial = the run had a faulting cleanup, a faulting body with cleanups, or a setup fault; distinct = distinct (mode, ending, setup-fault kind/pos, #setup cleanups, has-faulting-setup-cleanup) classes",
 		Assumptions: []string{"cleanups registered from inside a cleanup are outside the property and are not generated"},
 		Gen: func(tier string, seed uint64) []core.Case {
@@ -89,7 +89,7 @@ func init() {
 			if tier == "thorough" {
 				n = 800
 			}
-			endings := []string{"limit", "limit", "duration", "cancel-out", "cancel-in", "setupfault", "timeout"}
+			endings := []string{"limit", "limit", "duration", "cancel-out", "cancel-in", "setupfault", "timeout", "cancel-setup"}
 			modes := []string{"users", "constant", "staged", "ramp", "gaussian", "custom", "file", "filespan"}
 			var cs []core.Case
 			for i := 0; i < n; i++ {
@@ -141,6 +141,13 @@ func init() {
 				case "setupfault":
 					p.SetupFault = 1 + r.IntN(engine.NumBehaviours-1)
 					p.SetupFaultPos = r.IntN(ns + 1)
+				case "cancel-setup":
+					// the run is cancelled while setup is executing (after some of its cleanups were registered);
+					// half of these setups also fail
+					p.SetupFaultPos = r.IntN(ns + 1)
+					if r.IntN(2) == 0 {
+						p.SetupFault = 1 + r.IntN(engine.NumBehaviours-1)
+					}
 				case "timeout":
 					p.Spec.CompletionMS = 150 + r.IntN(100)
 					p.Spec.MaxDurationMS = 150
@@ -206,6 +213,9 @@ func c06Once(c *core.Case, o *core.Outcome, p c06Params, reg *scenarios.Scenario
 		}
 		for i := 0; i < p.SetupFaultPos && i < len(p.SetupCleanups); i++ {
 			reg(i)
+		}
+		if p.Ending == "cancel-setup" {
+			cancel()
 		}
 		if p.SetupFault != engine.BPass {
 			engine.Behave(t, p.SetupFault)
